@@ -280,11 +280,101 @@ def recursion_cases(out):
                               f"bindings before and after the call it makes", {"recursion": [style, how]})
 
 
+def awkward_exception_cases(out):
+    """a block / a call left by an exception object that misbehaves when touched: it refuses new attributes and notes
+    (a frozen dataclass, `__slots__`, a raising `__setattr__`), its `__notes__` is not a list, its `__repr__` / `__str__`
+    raise. Whatever happens to the error message, the bindings of the block / call end with it: afterwards the thread is
+    where it was."""
+    import dataclasses
+
+    import typeguard
+
+    from impl_prog import Duck, canon_bindings, stack_depth
+
+    @dataclasses.dataclass(frozen=True)
+    class Frozen(Exception):
+        code: int = 1
+
+    class NoSetattr(Exception):
+        def __setattr__(self, k, v):
+            raise AttributeError("read-only")
+
+    class BadNotes(Exception):
+        __notes__ = "not a list"
+
+    class BadRepr(Exception):
+        def __repr__(self):
+            raise RuntimeError("repr")
+
+        __str__ = __repr__
+
+    class Slots(Exception):
+        __slots__ = ()
+
+    excs = [Frozen, NoSetattr, BadNotes, BadRepr, Slots]
+
+    def scopes(E):
+        def block():
+            with jaxtyped("context"):
+                isinstance(Duck((3,), "float32"), Float[Duck, "a"])
+                raise E()
+
+        @jaxtyped(typechecker=None)
+        def old(x: Float[Duck, "n"]):
+            isinstance(x, Float[Duck, "n"])
+            raise E()
+
+        @jaxtyped(typechecker=typeguard.typechecked)
+        def new(x: Float[Duck, "n"]):
+            raise E()
+
+        @jaxtyped
+        @typeguard.typechecked
+        def stacked(x: Float[Duck, "n"]):
+            raise E()
+
+        return [("context block", block), ("typechecker=None call", lambda: old(Duck((4,), "float32"))), ("new-style call", lambda: new(Duck((4,), "float32"))),
+                ("old-style call", lambda: stacked(Duck((4,), "float32")))]
+
+    for E in excs:
+        for sname, run_scope in scopes(E):
+            for outer in ("top level", "inside a block"):
+                d0 = stack_depth()
+                try:
+                    if outer == "top level":
+                        try:
+                            run_scope()
+                            how = "no exception"
+                        except BaseException as e:  # noqa: BLE001
+                            how = type(e).__name__
+                        d1, b1 = stack_depth(), None
+                    else:
+                        with jaxtyped("context"):
+                            isinstance(Duck((7,), "float32"), Float[Duck, "q"])
+                            b0 = canon_bindings(impl.bindings())["single"]
+                            try:
+                                run_scope()
+                                how = "no exception"
+                            except BaseException as e:  # noqa: BLE001
+                                how = type(e).__name__
+                            b1 = (b0, canon_bindings(impl.bindings())["single"])
+                            d1 = stack_depth() - 1
+                finally:
+                    impl_prog.drain_stack()
+                out.case(("awkward-exception", E.__name__, sname, outer), True, sample={"exception": E.__name__, "scope": sname, "where": outer, "raised": how, "depth_after": d1})
+                rep = {"awkward": E.__name__, "scope": sname}
+                if d1 != d0:
+                    out.violation(f"awkward-exception:depth:{sname}", f"a {sname} left by {E.__name__}() ({outer}; what came out: {how}) leaves {d1 - d0} binding context(s) open", rep)
+                elif b1 is not None and b1[0] != b1[1]:
+                    out.violation(f"awkward-exception:bindings:{sname}", f"after a {sname} left by {E.__name__}() the enclosing block sees bindings {b1[1]} instead of {b1[0]}", rep)
+
+
 def run(tier, seed, out, drv, facts):
     rng = Rng(seed, "C05")
     thorough = tier == "thorough"
     generator_cases(out)
     recursion_cases(out)
+    awkward_exception_cases(out)
     for prog in block_argument_programs():
         run_one(out, drv, facts, prog, "typeguard", rng, "block-arguments")
     for prog in toggle_programs():
@@ -302,6 +392,9 @@ def run(tier, seed, out, drv, facts):
 def replay(rep, out, drv, facts):
     if "recursion" in rep:
         recursion_cases(out)
+        return
+    if "awkward" in rep:
+        awkward_exception_cases(out)
         return
     if "program" in rep:
         run_one(out, drv, facts, rep["program"], "typeguard", None, "replay")
